@@ -10,7 +10,10 @@ On the model of `QRBuilder` (setters overwrite, `build(&self)` reads), for EVERY
 * `C14_render_pure`: the renderers are functions of (QR code, renderer options): the model's
                      `Term.toStr`, `Svg.toStr` take the matrix by value and return a string, so
                      rendering twice gives the same text and cannot modify the QR code.
-Threads: Lean has no model of Rust threads. The argument is `build(&self)` + plain-data fields + a
+* `C14_interleaving`: on an abstract pool of threads with private builders and NO shared state, every
+                     schedule leaves every thread where it ends running alone (non-interference lemma);
+                     `solo_runs` ties that to `runHistory`.
+Threads in the real code: Lean has no model of Rust threads. The argument is `build(&self)` + plain-data fields + a
 source audit on every run (no static mut / thread_local / interior mutability / unsafe outside the
 guarded hooks) + the threaded correspondence (1..16 threads). That part is partial by nature.
 -/
@@ -114,5 +117,78 @@ theorem C14_render_pure (q : QR) (b : Svg.Builder) :
 /-! non-vacuity: version set twice, a build in between; the second build sees the last value -/
 example : buildStates {} [.version 3, .build, .ecl .H, .version 5, .build] =
     [{ version := some 3 }, { ecl := some .H, version := some 5 }] := by rfl
+
+
+/-! ### threads: an abstract interleaving model -/
+
+/-- threads with private state `L` and one shared state `G`; a step may read and write both -/
+def runSched {G L : Type} (step : G → L → G × L) : List Nat → G → (Nat → L) → G × (Nat → L)
+  | [], g, ls => (g, ls)
+  | t :: sched, g, ls =>
+    let r := step g (ls t)
+    runSched step sched r.1 (fun u => if u = t then r.2 else ls u)
+
+/-- `k` steps of a thread running alone -/
+def solo {G L : Type} (step : G → L → G × L) (g : G) : Nat → L → L
+  | 0, l => l
+  | k + 1, l => solo step g k (step g l).2
+
+/-- **non-interference**: if no step writes the shared state and no step's effect on the private state
+depends on it (what the source audit establishes for `build`: `&self`, plain-data fields, no statics,
+no interior mutability), then under EVERY schedule each thread ends in the state it reaches running alone -/
+theorem interleaving {G L : Type} (step : G → L → G × L)
+    (hw : ∀ g l, (step g l).1 = g) (hr : ∀ g g' l, (step g l).2 = (step g' l).2) :
+    ∀ (sched : List Nat) (g : G) (ls : Nat → L) (t : Nat),
+      (runSched step sched g ls).2 t = solo step g (sched.count t) (ls t) ∧ (runSched step sched g ls).1 = g
+  | [], g, ls, t => ⟨rfl, rfl⟩
+  | u :: sched, g, ls, t => by
+    have ih := interleaving step hw hr sched (step g (ls u)).1 (fun x => if x = u then (step g (ls u)).2 else ls x) t
+    simp only [runSched]
+    refine ⟨?_, by rw [ih.2, hw]⟩
+    rw [ih.1, hw]
+    by_cases h : t = u
+    · subst h
+      simp [solo]
+    · have : (u == t) = false := by simp [Ne.symm h]
+      simp [List.count_cons, h, this]
+
+/-- a thread of the pool: its own builder (input, options), the calls it still has to make, and the
+outcomes of its `build` calls so far -/
+structure ThreadSt where
+  input : List Nat
+  opts : Opts
+  todo : List BuilderOp
+  outs : List (Chk (Except BuildError Built))
+
+/-- one step of a thread: its next builder call; there is no shared state (`Unit`) -/
+def threadStep (_ : Unit) (s : ThreadSt) : Unit × ThreadSt :=
+  match s.todo with
+  | [] => ((), s)
+  | op :: rest =>
+    let r := builderStep s.input s.opts op
+    ((), { s with opts := r.1, todo := rest, outs := s.outs ++ (match r.2 with | some x => [x] | none => []) })
+
+/-- **C14 (threads, on the model)**: a pool of threads, each driving its own builder through its own
+history, interleaved by ANY schedule: every thread ends exactly where it ends running alone (same
+options, same outcomes in the same order). The model has no shared state; that the Rust code has none
+either is what the per-run source audit (`audit_shared_state`) and the threaded correspondence check -/
+theorem C14_interleaving (sched : List Nat) (ls : Nat → ThreadSt) (t : Nat) :
+    (runSched threadStep sched () ls).2 t = solo threadStep () (sched.count t) (ls t) :=
+  (interleaving threadStep (fun _ _ => rfl) (fun _ _ _ => rfl) sched () ls t).1
+
+/-- running alone long enough, a thread produces the outcomes of its history (C14_history applies) -/
+theorem solo_runs (s : ThreadSt) : ∀ (ops : List BuilderOp), s.todo = ops →
+    (solo threadStep () ops.length s).outs = s.outs ++ (runHistory s.input s.opts ops).2 ∧
+    (solo threadStep () ops.length s).opts = (runHistory s.input s.opts ops).1
+  | [], h => by simp [solo, runHistory]
+  | op :: rest, h => by
+    have hstep : (threadStep () s).2 = ThreadSt.mk s.input (builderStep s.input s.opts op).1 rest
+        (s.outs ++ (match (builderStep s.input s.opts op).2 with | some x => [x] | none => [])) := by
+      simp only [threadStep, h]
+    have ih := solo_runs (threadStep () s).2 rest (by rw [hstep])
+    simp only [List.length_cons, solo]
+    rw [ih.1, ih.2, hstep]
+    simp only [runHistory, List.append_assoc]
+    exact ⟨rfl, trivial⟩
 
 end FastQr.Props.C14
